@@ -142,6 +142,23 @@ def _reciprocal_ops(ctx, rng):
     return ops
 
 
+def _offgrid_unit_ops(ctx, rng):
+    """a quantity divided / multiplied by a UNIT of a quantised type whose scale
+    is not a multiple of the quantum: the unit stands for its exact scale (it is
+    not the quantity `1 unit`, which would be rounded to the grid)"""
+    ops = []
+    for v in ctx.linear_units():
+        qv = ctx.quantum(v)
+        if qv is None or (1 / qv).denominator == 1:
+            continue
+        same = [u for u in ctx.linear_units(ctx.units[v]["cls"])]
+        for u in rng.sample(same, min(3, len(same))):
+            a = _qty.tok(rng, Fraction(rng.randint(1, 400), rng.choice([1, 2, 10])))
+            ops.append(["q_unit", "div", f"{a}@{u}", v, MODE])
+            ops.append(["q_unit", "rdiv", f"{a}@{u}", v, MODE])
+    return ops
+
+
 def gen_cases(rng, tier):
     n_user = 40 if tier == "thorough" else 12
     n_pre = 6 if tier == "thorough" else 2
@@ -161,7 +178,7 @@ def gen_cases(rng, tier):
     for _ in range(n_user):
         ctx = _qty.user_ctx(rng, rng.randint(10, 20))
         cases.append(_qty.case_of(ctx, _ops_for(ctx, rng, per) + _declared_dimension_ops(ctx, rng) +
-                                  _reciprocal_ops(ctx, rng), ["random"]))
+                                  _reciprocal_ops(ctx, rng) + _offgrid_unit_ops(ctx, rng), ["random"]))
     # all pairs of predefined units (thorough), a rotating block (quick)
     ctx = _qty.predefined_ctx()
     allu = [u for u in ctx.units if ctx.units[u]["scale"] is not None]
